@@ -388,6 +388,7 @@ theorem c04_gen_decode_reserve : type_of% @AwsVerif.Proofs.C04.Bridge.gen_decode
   AwsVerif.Proofs.C04.Bridge.gen_decode_reserve
 theorem c04_gen_uuid : type_of% @AwsVerif.Proofs.C04.Bridge.gen_uuid := AwsVerif.Proofs.C04.Bridge.gen_uuid
 theorem c04_gen_host_utils : type_of% @AwsVerif.Proofs.C04.Bridge.gen_host_utils := AwsVerif.Proofs.C04.Bridge.gen_host_utils
+theorem c04_gen_date : type_of% @AwsVerif.Proofs.C04.Bridge.gen_date := AwsVerif.Proofs.C04.Bridge.gen_date
 
 -- imported per-parser theorems are added here by the integrator
 -- (C05 base64 / hex / UTF-8:            c04_base64_*, c04_hex_*, c04_utf8_*)
